@@ -496,3 +496,52 @@ def attr_out_of_range(t):
     sx = SymCtx() if not isinstance(t, str) else ConcCtx({})
     lit, v = int_literal(sx, t)
     return sx.And(lit, sx.Or(v < 0, v > 200))
+
+
+# ---------------------------------------------------------------- temporal literals: the whole text must be a literal
+from spyne.model.primitive import Time as _Time, DateTime as _DateTime, Duration as _Duration, Date as _Date
+
+TEMPORAL = {
+    'Time': (_Time, 'dd:dd:dd', r'(([01][0-9]|2[0-3]):[0-5][0-9]:[0-5][0-9](\.[0-9]+)?|24:00:00(\.0+)?)(Z|[+-]((0[0-9]|1[0-3]):[0-5][0-9]|14:00))?'),
+    'DateTime': (_DateTime, 'dddd-dd-ddTdd:dd:dd', r'-?([1-9][0-9]{3,}|0[0-9]{3})-(0[1-9]|1[0-2])-(0[1-9]|[12][0-9]|3[01])T(([01][0-9]|2[0-3]):[0-5][0-9]:[0-5][0-9](\.[0-9]+)?|24:00:00(\.0+)?)(Z|[+-]((0[0-9]|1[0-3]):[0-5][0-9]|14:00))?'),
+    'Date': (_Date, 'dddd-dd-dd', r'-?([1-9][0-9]{3,}|0[0-9]{3})-(0[1-9]|1[0-2])-(0[1-9]|[12][0-9]|3[01])(Z|[+-]((0[0-9]|1[0-3]):[0-5][0-9]|14:00))?'),
+    'Duration': (_Duration, 'PdDTdHdMdS', r'-?P((([0-9]+Y([0-9]+M)?([0-9]+D)?|([0-9]+M)([0-9]+D)?|([0-9]+D))(T(([0-9]+H)([0-9]+M)?([0-9]+(\.[0-9]+)?S)?|([0-9]+M)([0-9]+(\.[0-9]+)?S)?|([0-9]+(\.[0-9]+)?S)))?)|(T(([0-9]+H)([0-9]+M)?([0-9]+(\.[0-9]+)?S)?|([0-9]+M)([0-9]+(\.[0-9]+)?S)?|([0-9]+(\.[0-9]+)?S))))'),
+}
+
+
+def _tmpl_text(sx, tmpl):
+    out, run, i = '', 0, 0
+    for ch in tmpl + '\0':
+        if ch == 'd':
+            run += 1
+            continue
+        if run:
+            out = out + sx.digits('g%d' % i, run)
+            i += 1
+            run = 0
+        if ch != '\0':
+            out = out + ch
+    return out
+
+
+@harness('C05', params=[(n, fam) for n in sorted(TEMPORAL) for fam in ('xml', 'json')], label=lambda p: '%s %s' % p,
+         functions=['spyne.protocol._inbase.InProtocolBase.time_from_unicode', 'spyne.protocol._inbase.InProtocolBase.datetime_from_unicode_iso',
+                    'spyne.protocol._inbase.InProtocolBase.date_from_unicode_iso', 'spyne.protocol._inbase.InProtocolBase.duration_from_unicode'],
+         bounds={'text': 'a time / date-time / date / duration shape with every digit symbolic, followed by 0..2 arbitrary characters '
+                         'over { x Z 0 : + space } - so "12:30:00xyz"-like texts and genuine suffixes (Z, fractional digits are not '
+                         'in this alphabet) are inside'})
+def temporal_trailing_text(sx, p):
+    """a text is accepted for a temporal type only if the whole of it is a literal of that type (a literal followed by
+    anything else is refused with a validation fault, in both protocol families)"""
+    name, fam = p
+    T, tmpl, lexical = TEMPORAL[name]
+    L = sx.choose('suffix_len', [0, 1, 2])
+    text = _tmpl_text(sx, tmpl) + (sx.text('suffix', L, alphabet='xZ0:+ ') if L else '')
+    if fam == 'xml':
+        out = run_soft(lambda: XML.from_element(CTX, T, mk_element(sx, '{tns}v', text=text)))
+    else:
+        out = run_soft(lambda: JSON._from_dict_value(CTX, 'k', T, text, JSON.validator))
+    sx.observe('accepted', out.accepted)
+    if out.accepted:
+        return sx.matches(lexical, text)
+    return is_client_validation_fault(out.fault)
